@@ -11,7 +11,7 @@ V3 every obligation dominates the first effect: tokenizer flag writes and calls 
 import ast
 
 from .. import AnalysisError
-from ..flow import view_of
+from ..flow import view_of, untag
 from ..fold import fold
 from ..guards import Conds, Universe, f_and, to_formula, TRUE, FALSE, show
 from ..model import U
@@ -158,6 +158,8 @@ def _guard_dominates(f, view, vstmt, st):
 def run(ctx, only=None):
     ctx.group('R-VALID')
     repo = ctx.repo
+    if only is None:
+        check_output_attr_validator(ctx)
     work = work_functions(repo)
     n_obl = 0
     for f, obligations, whens in entry_points(repo):
@@ -250,3 +252,48 @@ def run(ctx, only=None):
                       % (label, getattr(bad, 'lineno', '?'), key), bad if bad is not None else f.node,
                       sample='%d uses of %s dominated' % (len(uses), label))
     ctx.floor('R-VALID', n_obl, 150 if only is None else 2, 'obligations')
+
+
+def check_output_attr_validator(ctx):
+    """validate_output_attrs raises exactly when a requested output attribute is not a column of its own table: for each
+    side one loop over the side's attribute list, entered whenever the list is given, raising iff `attr not in <columns
+    of that side>`"""
+    from ..side import side_of_name
+    from ..guards import Conds, Universe, to_formula, show
+    from .common import parse_expr
+    repo = ctx.repo
+    f = repo.fn(VALIDATION, 'validate_output_attrs')
+    from ..normalise import normalised_repo
+    if not [n for n in walk_own(f.node) if isinstance(n, ast.For)]:
+        r2 = normalised_repo(repo, VALIDATION, 'validate_output_attrs', only=lambda nm: nm.startswith('_'))
+        if r2 is not None:
+            f = r2.fn(VALIDATION, 'validate_output_attrs')
+    vw = view_of(f)
+    conds = Conds(f.node, lambda e, st: untag(vw.expand(e, st)))
+    seen = set()
+    for lp in [n for n in walk_own(f.node) if isinstance(n, ast.For)]:
+        it = untag(view_of(f).expand(lp.iter, lp))
+        side = side_of_name(U(it)) if isinstance(it, ast.Name) else None
+        if side is None or not isinstance(lp.target, ast.Name):
+            continue
+        var = lp.target.id
+        raises = [n for n in ast.walk(lp) if isinstance(n, ast.Raise)]
+        ok = len(raises) == 1
+        why = 'expected one raise in the loop over %s' % U(it)
+        if ok:
+            c_in = conds.of(raises[0])
+            c_loop = conds.of(lp)
+            # entering: whenever the list is given
+            okg = any(Universe().equivalent(c_loop, to_formula(parse_expr(x))) is None for x in (U(it), '%s is not None' % U(it), 'True'))
+            cols = [p_ for p_ in f.params if side_of_name(p_) == side and p_ != U(it)]
+            want = to_formula(parse_expr('%s not in %s' % (var, cols[0]))) if cols else None
+            from ..guards import f_and
+            oki = want is not None and Universe().equivalent(c_in, f_and(c_loop, want)) is None
+            ok = okg and oki
+            why = 'the %s output attributes are rejected under `%s` (loop entered under `%s`); an attribute must be rejected ' \
+                  'exactly when it is not a column of the %s table' % ('left' if side == 'L' else 'right', show(c_in)[:100], show(c_loop)[:60],
+                                                                      'left' if side == 'L' else 'right')
+        seen.add(side)
+        ctx.check('R-VALID/output-attrs', f, 'side %s' % side, ok, why, lp, sample='raise iff attr not in the columns of that side')
+    ctx.check('R-VALID/output-attrs', f, 'both sides', seen == {'L', 'R'}, 'output attributes of %s are not validated at all'
+              % sorted({'L', 'R'} - seen), f.node, nontrivial=False)
